@@ -59,6 +59,9 @@ class SnapJudge:
                                     "raised": repr(exc)[:120] if exc is not None else None})
         if exc is not None:
             self.res.count("calls_that_raised")
+        if len(self.res.samples) < 6:
+            self.res.sample({"sig": ctx.sig, "variant": ctx.variant, "operands": [type(o).__name__ for o in ctx.operands],
+                             "raised": repr(exc)[:80] if exc is not None else None, "operand0_snapshot_keys": sorted(self.before[0])})
 
 
 def plan(tier, seed):
